@@ -343,7 +343,7 @@ def _match_brace(clean, open_idx):
 
 def _find_impl_range(src, clean, header):
     want = re.sub(r"\s+", " ", header.strip())
-    for m in re.finditer(r"^[ \t]*impl\b[^{;]*\{", clean, re.M):
+    for m in re.finditer(r"^[ \t]*(?:impl|(?:pub(?:\([a-z]+\))?\s+)?trait)\b[^{;]*\{", clean, re.M):
         got = re.sub(r"\s+", " ", src[m.start():m.end() - 1].strip())
         if got == want:
             return m.end() - 1, _match_brace(clean, m.end() - 1)
@@ -465,7 +465,7 @@ def rewrite_arrayvec(text, counts):
     out = []
     i = 0
     while True:
-        m = re.compile(r"ArrayVec<\s*\[").search(text, i)
+        m = re.compile(r"ArrayVec(?:::)?<\s*\[").search(text, i)
         if not m:
             out.append(text[i:])
             break
@@ -491,7 +491,7 @@ def rewrite_arrayvec(text, counts):
         inner_t = text[open_end:semi].strip()
         inner_n = text[semi + 1:k - 1].strip()
         inner_t = rewrite_arrayvec(inner_t, counts)
-        out.append("ArrayVec<%s, { %s }" % (inner_t, inner_n))
+        out.append("%s<%s, { %s }" % ("ArrayVec::" if "::<" in m.group(0) else "ArrayVec", inner_t, inner_n))
         counts["R3"] = counts.get("R3", 0) + 1
         while k < len(text) and text[k] in " \t\n,":   # rustfmt's multi-line form: `ArrayVec<\n [T; N],\n>`
             k += 1
@@ -503,12 +503,26 @@ def rewrite_index(text, names, counts):
     """R12 (declared per item with `@opt idx=a,b.c`): indexing of a fixed-capacity vector through tinyvec's Index / IndexMut
     impls: `&mut NAME[E]` -> `NAME.idx_mut(E)`, `NAME[E]` -> `(*NAME.idx(E))` (stand-in methods: panic iff E >= len)."""
     for name in names:
-        rx = re.compile(r"(&mut\s+)?(?<![\w\.])%s\[((?:[^\[\]]|\[[^\[\]]*\])*)\]" % re.escape(name))
+        # R20a-c (same declaration): range indexing of the vector. `v[a..b].copy_from_slice(s)` -> v.copy_range(a, b, s),
+        # `v[a..].copy_from_slice(s)` -> v.copy_tail(a, s), `&v[a..]` -> v.tail(a); the stand-in methods require exactly what
+        # core's range index and copy_from_slice panic on
+        e = r"((?:[^\[\]\.]|\.(?!\.))+)"
+        for rid, rx2, rep2 in (("R20a-range-copy", r"(?<![\w\.])%s\[%s\.\.%s\]\s*\.copy_from_slice\(" % (re.escape(name), e, e), name + r".copy_range(\1, \2, "),
+                               ("R20b-tail-copy", r"(?<![\w\.])%s\[%s\.\.\]\s*\.copy_from_slice\(" % (re.escape(name), e), name + r".copy_tail(\1, "),
+                               ("R20c-tail", r"&%s\[%s\.\.\]" % (re.escape(name), e), name + r".tail(\1)")):
+            text, n = re.subn(rx2, rep2, text)
+            if n:
+                counts[rid] = counts.get(rid, 0) + n
+        rx = re.compile(r"(&mut\s+)?(?<![\w\.])%s\[((?:[^\[\]]|\[[^\[\]]*\])*)\](\s*=(?!=))?" % re.escape(name))
 
         def rep(m):
+            if ".." in m.group(2):
+                return m.group(0)      # a range index is not element access (R20)
             counts["R12-index"] = counts.get("R12-index", 0) + 1
             if m.group(1):
                 return "%s.idx_mut(%s)" % (name, m.group(2))
+            if m.group(3):
+                return "*%s.idx_mut(%s) =" % (name, m.group(2))     # `v[i] = e` (IndexMut)
             return "(*%s.idx(%s))" % (name, m.group(2))
         text = rx.sub(rep, text)
     return text
@@ -563,6 +577,16 @@ def render_fn(item, cut, counts):
             rt = rt[:mw.start()].strip()
         sig = sig[:m.start()] + ") -> (%s: %s)%s" % (rname, rt, where)
         counts["R0-name-result"] = counts.get("R0-name-result", 0) + 1
+    if "traitfree" in opts:
+        # R21: a provided (default) method of `trait HashChain` becomes the free function hc_<name><H: HashChain>: the receiver
+        # is the explicit parameter `hasher`, `Self::` is `H::`, calls to sibling provided methods go through R4
+        sig, n = re.subn(r"\bfn\s+%s\s*\(" % re.escape(item["name"]), "pub fn hc_%s<H: HashChain>(" % item["name"], sig, count=1)
+        if n != 1:
+            raise Undecided("lost anchor: signature of provided trait method %s" % item["name"])
+        sig = re.sub(r"\(\s*&mut self\s*,", "(hasher: &mut H,", sig)
+        sig = re.sub(r"\(\s*&self\s*,", "(hasher: &H,", sig)
+        sig = re.sub(r"\bSelf::", "H::", sig)
+        counts["R21-trait-provided-fn"] = counts.get("R21-trait-provided-fn", 0) + 1
     if "rename" in opts:
         sig, n = re.subn(r"\bfn\s+%s\b" % re.escape(item["name"]), "fn " + opts["rename"], sig, count=1)
         counts["R9-rename-def"] = counts.get("R9-rename-def", 0) + n
@@ -614,6 +638,10 @@ def render_fn(item, cut, counts):
         inserts.append((le + 1, "/*@hint-begin*/\n" + text + "\n/*@hint-end*/\n"))
     for pos, text in sorted(inserts, key=lambda x: -x[0]):
         body = body[:pos] + text + body[pos:]
+    if "traitfree" in opts and not (opts.get("external_body") or item.get("imported_from")):
+        body = re.sub(r"\bSelf::", "H::", body)
+        body = re.sub(r"\bself\.(do_actual_hash_chain|do_hash_chain)\(", r"hc_\1(hasher, ", body)
+        body = re.sub(r"\bself\b", "hasher", body)
     body = apply_rewrites(body, counts, [x.strip() for x in opts.get("idx", "").split(",") if x.strip()])
     sig = apply_rewrites(sig, counts)
     for key in sorted(k for k in opts if k.startswith("bodysub")):
@@ -669,6 +697,9 @@ def generate(u, repo=None):
                 # R0-vis: all fields pub (visibility only; lets contracts of pub fns mention them)
                 text, n = re.subn(r"^(\s+)([a-z_][a-z0-9_]*\s*:)", r"\1pub \2", text, flags=re.M)
                 counts["R0-vis"] = counts.get("R0-vis", 0) + n
+                if re.match(r"\s*struct\b", text):
+                    text = re.sub(r"^(\s*)struct\b", r"\1pub struct", text, count=1)     # private type: visibility only
+                    counts["R0-vis"] += 1
                 # tuple structs: `struct X(T, U)` -> `struct X(pub T, pub U)`
                 mt = re.search(r"\bstruct\s+\w+\s*(?:<[^>(]*>)?\s*\(", text)
                 if mt:
@@ -702,12 +733,13 @@ def generate(u, repo=None):
                 _, rx, rep, _ = it["opts"]["sub"].split("/", 3)
                 text, n = re.subn(rx, rep, text)
                 counts["itemsub"] = counts.get("itemsub", 0) + n
-        if it["impl"] != open_impl:
+        this_impl = None if it["opts"].get("traitfree") else it["impl"]
+        if this_impl != open_impl:
             if open_impl is not None:
                 chunks.append(("}\n", None))
-            if it["impl"] is not None:
-                chunks.append((it["impl"] + " {\n", None))
-            open_impl = it["impl"]
+            if this_impl is not None:
+                chunks.append((this_impl + " {\n", None))
+            open_impl = this_impl
         chunks.append((text + "\n\n", {"item": it["name"], "kind": it["kind"], "file": it["file"], "src_line": cut["start_line"]}))
         extraction.append({"item": ("%s::" % it["impl"] if it["impl"] else "") + it["name"], "kind": it["kind"],
                            "from": "%s:%d" % (it["file"], cut["start_line"]), "lines": text.count("\n") + 1})
